@@ -27,7 +27,8 @@ CHECKS['C19'] = dict(
          'decided by exhaustive closed evaluation (label E).',
     design_ref='DESIGN.md section 4 (C19), section 8',
     note='D/shape for clean_values/__post_init__ (n listed in evidence); card-SEQUENCE text forms only by a bounded stand-in (label B, '
-         'reported separately, never counted); user-supplied divmod/rake not covered; float arithmetic treated as real.',
+         'reported separately, never counted); user-supplied divmod/rake not covered; float arithmetic treated as real.'
+         ' The argument forms of burn_card / deal_hole / deal_board (None, count, sequence, one bare Card) are covered by the shared C06 obligations, relabelled C19.',
     technique='sidecar contracts + own VC generator + z3 (linear / nonlinear real arithmetic); exhaustive closed evaluation for 70 cards')
 
 CHECKS['C04'] = dict(
@@ -42,7 +43,8 @@ CHECKS['C04'] = dict(
     design_ref='DESIGN.md section 4 (C04), section 8',
     note='E obligations: complete for the stated domain, back end is CPython running the real code. quick tier covers the 52-card five-card '
          'types through the 7 462-key space (assumes unique factorisation of the rank-prime products); thorough tier enumerates all subsets '
-         'and does not. Subsets of 6+ cards are not enumerated.',
+         'and does not. Subsets of 6+ cards are not enumerated.'
+         ' Also: the real table holds no key beyond the combinations the rules accept (no entry of another card count); entry identity is modelled by key tags (same key, same object).',
     technique='exhaustive closed evaluation of nullary table constructors and finite card domains against an independent rule spec + '
               'deductive VCs (pyvc/z3) for the comparison wrappers')
 
@@ -56,7 +58,8 @@ CHECKS['C18'] = dict(
          'decided by one-signed-coefficient certificates, per (players, paid places).',
     design_ref='DESIGN.md section 4 (C18), section 8',
     note='floats treated as reals; equities with all cards given only (sampling / averaging not covered); shapes: players <= 4 (quick) / 6 '
-         '(thorough), ICM players <= 4 (quick: paid <= 2 for 4 players) / 5 (thorough, paid <= 2); hand strengths abstract (C04/C05 contracts).',
+         '(thorough), ICM players <= 4 (quick: paid <= 2 for 4 players) / 5 (thorough, paid <= 2); hand strengths abstract (C04/C05 contracts).'
+         ' E task on the selection step of calculate_equities: only legal deals (no card twice among holes and board) are kept, each with the stub deck of the cards not in play.',
     technique='exhaustive closed evaluation of the notation domain + VCs from symbolic execution (z3) + exact rational identities / '
               'coefficient certificates (sympy) on the real code')
 
@@ -71,7 +74,8 @@ CHECKS['C11'] = dict(
     design_ref='DESIGN.md section 4 (C11), section 8',
     note='decides the configuration half of the statement for all parameter choices; the behavioural half (only the fixed bet size and four '
          'raises in fixed-limit, stack in no-limit, pot in pot-limit, two halves in split games) follows from these fields plus the C03/C02 '
-         'contracts and is not re-proved here.',
+         'contracts and is not re-proved here.'
+         ' The behavioural half runs the structure-indexed obligations of C03 (amount bounds, raise cap), the opening obligations of C13 and the split obligations of C02, relabelled C11.',
     technique='sidecar contracts + symbolic execution of the real constructor chain + z3; exhaustive comparison of a closed dict')
 
 CHECKS['C01'] = dict(
@@ -169,7 +173,8 @@ CHECKS['C06'] = dict(
          '"no card is ever duplicated or lost" follows by induction over the operations; deck size does not enter.',
     design_ref='DESIGN.md section 4 (C06), section 8',
     note='D/shape: piles are capacity-bounded symbolic sequences (capacities in the evidence); explicitly supplied known cards are assumed '
-         'dealable (the condition under which the engine does not warn); shuffles are arbitrary permutations.',
+         'dealable (the condition under which the engine does not warn); shuffles are arbitrary permutations.'
+         ' Also: the card burnt / the cards dealt are the ones named by the argument, or as many as asked -- the argument ranging over every documented form (None, a natural number, a sequence, ONE bare Card object).',
     technique='sidecar contracts + own VC generator over the real AST + z3, pointwise (skolem card) conservation; native replay of counter-models')
 
 CHECKS['C10'] = dict(
@@ -204,7 +209,8 @@ CHECKS['C05'] = dict(
     note='Two halves: the loop logic (running maximum, skipping invalid candidates, ValueError iff none valid) is unbounded; that the streams '
          'are the composition rule of the statement is D/shape in the card counts: quick a thinned set up to 7 cards (Omaha up to 4+4, 3+5), '
          'thorough every (hole, board) with at most 7 cards, Omaha every (hole, board) up to 5+5 with at most 30 candidate combinations; the hand tables themselves are C04; itertools.combinations '
-         'trusted as documented.',
+         'trusted as documented.'
+         ' Cards are distinct symbolic Card objects (rank and suit symbolic), so code that inspects ranks or suits is executed too; a random-deal comparison on the real code is a bounded stand-in (label B, never counted) that supplies a failing input where a changed from_game leaves the executable subset.',
     technique='sidecar contracts + own VC generator over the real AST (abstract cards, uninterpreted validity / strength per card set) + z3')
 
 CHECKS['C07'] = dict(
@@ -240,7 +246,8 @@ CHECKS['C12'] = dict(
          'changes no winner and no share (lemma over the awarding rule). The composition to equal payoffs is a paper argument; twin runs '
          'on random hands are a bounded stand-in, reported separately and never counted.',
     design_ref='DESIGN.md section 4 (C12), section 8',
-    note='level other: premises proved (D/shape: n, hand types, boards as listed), composition on paper, B stand-in (twin runs).',
+    note='level other: premises proved (D/shape: n, hand types, boards as listed), composition on paper, B stand-in (twin runs).'
+         ' (m0): get_hand / get_up_hand against "the best hand from the known / face-up hole cards and the board"; abstract hands are a function of the card sequences (congruence axioms).',
     technique='sidecar contracts + own VC generator over the real AST + z3 (abstract hands) for the lemmas; paper composition; bounded twin-run stand-in')
 
 CHECKS['C15'] = dict(
@@ -272,7 +279,8 @@ CHECKS['C09'] = dict(
          'determinism (a5) are C08/C10/C12/C14/C15 clauses. The composition to trace equality with the eager un-automated twin is a paper '
          'argument; twin runs over automation subsets of small games are a bounded stand-in, never counted.',
     design_ref='DESIGN.md section 4 (C09), section 8',
-    note='level other: premises proved (scans: no bound; quiescence: D/shape n=2 quick, more thorough), composition on paper, B stand-in.',
+    note='level other: premises proved (scans: no bound; quiescence: D/shape n=2 quick, more thorough), composition on paper, B stand-in.'
+         ' Scan (a6): a step hands over to the next step (self._begin_X / _update_X / _end_X) only as its last act on every path.',
     technique='sidecar contracts + own VC generator with contract / loop-invariant cuts + z3 (quiescence); AST scans; bounded twin-run stand-in')
 
 CHECKS['C16'] = dict(
